@@ -376,6 +376,13 @@ func RunCheck(o CheckOptions) int {
 	os.MkdirAll(replayDir, 0o755)
 	violations := 0
 	knownHit := map[string]bool{}
+	confirmedLabel := map[string]bool{}
+	for _, rec := range allCex {
+		if rec.Confirmed {
+			confirmedLabel[rec.Harness+"|"+rec.Label] = true
+		}
+	}
+	shownUnconfirmed := map[string]int{}
 	for i, rec := range allCex {
 		if kf := matchKnown(known, rec); kf != nil {
 			rec.Known = kf.ID
@@ -392,9 +399,15 @@ func RunCheck(o CheckOptions) int {
 			violations++
 			fmt.Printf("VIOLATION property=%s replay=%s\n", o.Prop, path)
 			fmt.Printf("  harness=%s assert=%q facts=%v\n", rec.Harness, rec.Label, rec.Facts)
-		} else {
-			msg := fmt.Sprintf("%s: counterexample for assert %q (facts %v) did not reproduce natively (replay %s)", rec.Harness, rec.Label, rec.Facts, path)
-			inconclusive = append(inconclusive, msg)
+		} else if !confirmedLabel[rec.Harness+"|"+rec.Label] {
+			// a symbolic counterexample that the native run does not reproduce is not reported as a
+			// violation (the encoding, a stub or an idealisation may be responsible)
+			k := rec.Harness + "|" + rec.Label
+			shownUnconfirmed[k]++
+			if shownUnconfirmed[k] <= 3 {
+				msg := fmt.Sprintf("%s: counterexample for assert %q (facts %v) did not reproduce natively (replay %s)", rec.Harness, rec.Label, rec.Facts, path)
+				inconclusive = append(inconclusive, msg)
+			}
 		}
 	}
 	for _, m := range inconclusive {
